@@ -11,6 +11,7 @@ package cmdshellsim
 import (
 	"encoding/json"
 	"fmt"
+	"syscall"
 )
 
 // Limits the generator and the validator share.
@@ -36,8 +37,14 @@ const (
 // Item is one element of a case's action list.  The three parties (child,
 // input, consumer) each execute their own items in list order.
 //
-//	child:    w(fd,n) close(fd) eof cwait(n) wdrain(fd) exit(code)
-//	input:    in(n) ingate(g=child_exited)
+//	child:    w(fd,n) close(fd) eof cwait(n) wdrain(fd) exit(code) kill(sig)
+//	input:    in(n) ingate(g=child_exited) inz indataeof
+//
+// kill: the child ends by sending itself a signal instead of exiting.
+// inz: one Read of the input returns (0, nil) at that point.
+// indataeof: the input's last bytes are returned together with io.EOF
+// (io.Reader allows both; position of the item does not matter).
+//
 //	consumer: rgate(g=reaped|go_returned|input_done) read(n,sz) drain(sz)
 type Item struct {
 	K    string `json:"k"`
@@ -46,6 +53,7 @@ type Item struct {
 	Sz   int    `json:"sz,omitempty"`
 	G    string `json:"g,omitempty"`
 	Code int    `json:"code,omitempty"`
+	Sig  int    `json:"sig,omitempty"`
 }
 
 // Config holds what is fixed for a case (nothing so far but a version).
@@ -64,6 +72,9 @@ type plan struct {
 	hasEOF   bool
 	hasCwait bool
 	exitCode int
+	killSig  int  // the child ends by this signal (0: it exits)
+	dataEOF  bool // last input bytes come together with io.EOF
+	zeroRds  int  // (0, nil) reads in the input
 	drain    int
 	closed   [3]bool
 	inGate   bool
@@ -79,9 +90,9 @@ func (it Item) String() string {
 }
 
 func isChild(k string) bool {
-	return k == "w" || k == "close" || k == "eof" || k == "cwait" || k == "wdrain" || k == "exit"
+	return k == "w" || k == "close" || k == "eof" || k == "cwait" || k == "wdrain" || k == "exit" || k == "kill"
 }
-func isInput(k string) bool { return k == "in" || k == "ingate" }
+func isInput(k string) bool { return k == "in" || k == "ingate" || k == "inz" || k == "indataeof" }
 func isCons(k string) bool  { return k == "rgate" || k == "read" || k == "drain" }
 
 // newPlan splits and validates items.  A non-empty string says why the list
@@ -138,6 +149,12 @@ func newPlan(items []Item) (*plan, string) {
 					return nil, "cwait beyond what was written"
 				}
 				p.hasCwait = true
+			case "kill":
+				if it.Sig != int(syscall.SIGKILL) && it.Sig != int(syscall.SIGTERM) {
+					return nil, "bad signal"
+				}
+				exitSeen = true
+				p.killSig = it.Sig
 			case "exit":
 				if it.Code < 0 || it.Code > 125 || it.Code == codeEPIPE || it.Code == codeBad {
 					return nil, "bad exit code"
@@ -152,6 +169,11 @@ func newPlan(items []Item) (*plan, string) {
 					return nil, "bad input chunk"
 				}
 				p.inTotal += it.N
+			} else if it.K == "inz" {
+				p.zeroRds++
+			} else if it.K == "indataeof" {
+				p.dataEOF = true
+				continue // a mode, not a step of the input sequence
 			} else {
 				if it.G != "child_exited" {
 					return nil, "bad input gate"
@@ -359,7 +381,7 @@ func (p *plan) inputFits() bool {
 func (p *plan) largeLastWrite() bool {
 	for i := len(p.child) - 1; i >= 0; i-- {
 		switch p.child[i].K {
-		case "exit":
+		case "exit", "kill":
 			continue
 		case "w":
 			return p.child[i].N > pipeBuf
@@ -371,7 +393,7 @@ func (p *plan) largeLastWrite() bool {
 }
 
 func (p *plan) nonTrivial() bool {
-	return len(p.gates) > 0 || p.inGate || p.hasCwait || p.wdrains[1]+p.wdrains[2] > 0 || p.exitCode != 0 ||
+	return len(p.gates) > 0 || p.inGate || p.hasCwait || p.wdrains[1]+p.wdrains[2] > 0 || p.exitCode != 0 || p.killSig != 0 ||
 		p.out[1]+p.out[2]+p.inTotal > 4096
 }
 
